@@ -25,7 +25,13 @@ func key(t *rapid.T) string {
 }
 
 func id(t *rapid.T) string {
-	switch rapid.IntRange(0, 11).Draw(t, "idkind") {
+	switch rapid.IntRange(0, 12).Draw(t, "idkind") {
+	case 12:
+		// the same IDs in other spellings: leading zeros, a plus sign
+		sp := func(v string) string {
+			return gen.Pick(t, "spell", "", "0", "00", "+") + v
+		}
+		return sp(rapid.SampledFrom(msVals[:6]).Draw(t, "ms")) + "-" + sp(rapid.SampledFrom(seqVals[:4]).Draw(t, "seq"))
 	case 0, 1:
 		return "*"
 	case 2:
